@@ -75,6 +75,12 @@ def pool(R):
         P.append({"fn": "jalali", "s": s})
     for s in ["14-09-1432", "20 Rajab 1436 10:30"]:
         P.append({"fn": "hijri", "s": s})
+    # the same numeric date through both calendars (years the two calendars share): a group whose members must not notice each other
+    cal = []
+    for s in ["1400/06/29", "1393/10/25", "1432-09-14", "1390/03/10"]:
+        P.append({"fn": "jalali", "s": s}); cal.append(len(P) - 1)
+        P.append({"fn": "hijri", "s": s}); cal.append(len(P) - 1)
+    pool.calendars = cal
     # absolute-parser failures with the default settings object in non-MDY locales, and order-sensitive calls that must not notice
     poison = []
     for lg, bad in (("fr", "32/13/2020"), ("de", "45.45.2020"), ("hu", "2020.13.45")):
@@ -127,6 +133,12 @@ def pool(R):
         for lg, s2 in ((["fr"], "11 décembre 2014"), (["fr"], "il y a 3 années"), (["es"], "miércoles 4 de marzo de 2015"), (["de"], "5. März 2016"), (["fr"], "vers le 3 février 2015")):
             P.append({"fn": "parse", "s": s2, "kw": {"languages": lg, "settings": stv}}); norms.append(len(P) - 1)
     pool.norms = norms
+    # a valid setting and the same value written as text (wrong type): the second is rejected whatever was validated before it
+    tw = []
+    for key, good in (("STRICT_PARSING", True), ("CACHE_SIZE_LIMIT", 1000), ("REQUIRE_PARTS", ["day"]), ("NORMALIZE", True), ("DEFAULT_LANGUAGES", ["en"])):
+        for val in (good, str(good)):
+            P.append({"fn": "parse", "s": "12 March 2015", "kw": {"languages": ["en"], "settings": {key: val}}}); tw.append(len(P) - 1)
+    pool.twins = tw
     # failing calls
     P.append({"fn": "parse", "s": "2015", "kw": {"settings": {"UNKNOWN": 1}}})
     P.append({"fn": "parse", "s": "2015", "kw": {"languages": ["xx"]}})
@@ -209,6 +221,12 @@ def run(ctx):
         od = getattr(pool, "ordered", [])
         for _ in range(60 if tier == "quick" else 1200):
             hists.append(([R.choice(od) for _ in range(R.randint(2, 4))], "0"))
+        cg = getattr(pool, "calendars", [])
+        for _ in range(24 if tier == "quick" else 400):
+            hists.append(([R.choice(cg) for _ in range(R.randint(2, 4))], "0"))
+        tg = getattr(pool, "twins", [])
+        for k_ in range(0, len(tg), 2):
+            hists.append(([tg[k_], tg[k_ + 1]], "0")); hists.append(([tg[k_ + 1], tg[k_], tg[k_ + 1]], "0"))
         for a in getattr(pool, "poison", []):
             for b in getattr(pool, "sensitive", []):
                 hists.append(([a, b], "0"))
